@@ -315,6 +315,19 @@ def configurations(cx):
     dots = [pair(-1, -1)] + [pair(-1, k) for k in range(len(i1))] + [pair(j, k) for j in range(len(i1))
                                                                       for k in range(j, len(i1))]
 
+    tables = {}
+
+    def table_num(tname, key):
+        if tname not in tables:
+            t = s.global_value(ST, tname)
+            if not isinstance(t, deg.Map):
+                raise core.AnalysisError("%s is no longer a literal dict" % tname)
+            tables[tname] = t
+        v = tables[tname].d.get(key)
+        if not (isinstance(v, Q) and v.num is not None and v.num.is_const):
+            raise core.AnalysisError("%s[%r] has no literal value" % (tname, key))
+        return v.num.value
+
     def theta(level, tag):
         n = 3 if level == "MGGA" else 2
         return lst(*[sym("%s%d" % (tag, i)) for i in range(n)])
@@ -349,9 +362,26 @@ def configurations(cx):
             for sp in js:
                 out.append(("NLDFSettingsVJ(%s,%s)" % (tag, sp), lambda level=level, mult=mult, sp=sp: s.new(
                     ST, "NLDFSettingsVJ", K(level), theta(level, "th"), K(mult), KS([sp]), jparams(level, [sp]))))
-            out.append(("NLDFSettingsVIJ(%s)" % tag, lambda level=level, mult=mult: s.new(
-                ST, "NLDFSettingsVIJ", K(level), theta(level, "th"), K(mult), KS(i0[:1]), KS(i1), lst(dots[-2]),
-                KS(js[:2]), jparams(level, js[:2]))))
+            # ij sets: the i block sits after the j block.  Its powers are made to differ from the j block's at
+            # the same positions (index-distinguishable blocks), and the block lengths differ, so that reading one
+            # block with the other's offset changes the result.
+            u0 = table_num("RHO_MULT_USPS", mult)
+            supported = (0, -2, 2, 5)
+            jsel = list(reversed(js[:2]))
+            ju = [u0 + table_num("SPEC_USPS", sp) for sp in jsel]
+            l0 = [sp for sp in i0 if u0 + table_num("SPEC_USPS", sp) in supported]
+            l0.sort(key=lambda sp: (u0 + table_num("SPEC_USPS", sp) == ju[0], i0.index(sp)))
+            l0 = l0[:3]
+
+            def dot_usp(d):
+                names = ["grad_rho" if int(x.num.value) == -1 else i1[int(x.num.value)] for x in d.items]
+                return u0 + sum(table_num("SPEC_USPS", nm) for nm in names)
+            dsel = [d for d in dots if dot_usp(d) in supported][:4]
+            if len(dsel) == len(jsel):
+                dsel = dsel[:-1] or dsel
+            out.append(("NLDFSettingsVIJ(%s)" % tag, lambda level=level, mult=mult, l0=l0, dsel=dsel, jsel=jsel: s.new(
+                ST, "NLDFSettingsVIJ", K(level), theta(level, "th"), K(mult), KS(l0), KS(i1), lst(*dsel),
+                KS(jsel), jparams(level, jsel))))
             for damp in damps:
                 out.append(("NLDFSettingsVK(%s,%s)" % (tag, damp), lambda level=level, mult=mult, damp=damp: s.new(
                     ST, "NLDFSettingsVK", K(level), theta(level, "th"), K(mult), jparams(level, ["se", "se"]), K(damp))))
@@ -707,6 +737,10 @@ def mutants(tree):
                "start = self.nk0 + self.nk1", expect="reasonable"),
         Mutant("SDMXG declared powers repeat the last ndt pows", ST, "return usps + usps[: self.ndterms]",
                "return usps + usps[-self.ndterms :]", expect=None),
+        Mutant("VI normalisers read the declared powers without the j-block offset", ST,
+               "usps = self.get_feat_usps()[self.nfeat - nvi :]", "usps = self.get_feat_usps()[:nvi]", expect="reasonable"),
+        Mutant("VJ normalisers read the i-block powers", ST, "usps = self.get_feat_usps()[:nvj]",
+               "usps = self.get_feat_usps()[-nvj:]", expect="reasonable"),
         Mutant("LDA exchange rho^(4/3) -> rho^(1/3)", BL, "e[:] += LDA_FACTOR * rho ** (4.0 / 3)\n",
                "e[:] += LDA_FACTOR * rho ** (1.0 / 3)\n", expect="base-deg"),
         Mutant("PBE dedx[1] loses rho^(4/3)", BL, "dedx[1] += LDA_FACTOR * rho ** (4.0 / 3) * dfx",
